@@ -853,8 +853,12 @@ class Recompiler:
 
     def _struct_collecttype(self, tp):
         self._do_collect_type(tp)
-        if self.target_is_python:
+        if (self.target_is_python and
+                tp not in self.ffi._parser._included_declarations):
             # also requires nested anon struct/unions in ABI mode, recursively
+            # (not for structs coming from ffi.include(): they are fetched
+            # from the included ffi at runtime, and their anonymous members
+            # may have the same '$N' name as ours)
             for fldtype in tp.anonymous_struct_fields():
                 self._struct_collecttype(fldtype)
 
